@@ -169,6 +169,9 @@ type CqlClientConnection struct {
 	ctx                context.Context
 	cancel             context.CancelFunc
 	payloadAccumulator *payloadAccumulator
+	// channelsLock is held (shared) by whoever sends on outgoing or events, and (exclusively) by Close while it closes
+	// them: a send never meets a channel that is being closed.
+	channelsLock sync.RWMutex
 }
 
 func newCqlClientConnection(
@@ -435,12 +438,14 @@ func (c *CqlClientConnection) processIncomingFrame(incoming *frame.Frame) (abort
 		for _, handler := range c.handlers {
 			handler(incoming, c)
 		}
+		c.channelsLock.RLock()
 		select {
 		case c.events <- incoming:
 			log.Debug().Msgf("%v: incoming event frame successfully delivered: %v", c, incoming)
 		default:
 			log.Error().Msgf("%v: events queue is full, discarding event frame: %v", c, incoming)
 		}
+		c.channelsLock.RUnlock()
 	} else {
 		if err := c.inFlightHandler.onIncomingFrameReceived(incoming); err != nil {
 			log.Error().Err(err).Msgf("%v: incoming frame delivery failed: %v", c, incoming)
@@ -527,6 +532,8 @@ func (c *CqlClientConnection) Send(f *frame.Frame) (InFlightRequest, error) {
 		return nil, fmt.Errorf("%v: failed to register in-flight handler for frame: %v: %w", c, f, err)
 	} else {
 		verifPoint("client.send.beforeEnqueue")
+		c.channelsLock.RLock()
+		defer c.channelsLock.RUnlock()
 		select {
 		case c.outgoing <- f:
 			log.Debug().Msgf("%v: outgoing frame successfully enqueued: %v", c, f)
@@ -613,6 +620,7 @@ func (c *CqlClientConnection) Close() (err error) {
 		log.Debug().Msgf("%v: closing", c)
 		c.cancel()
 		err = c.conn.Close()
+		c.channelsLock.Lock()
 		outgoing := c.outgoing
 		events := c.events
 		c.outgoing = nil
@@ -620,6 +628,7 @@ func (c *CqlClientConnection) Close() (err error) {
 		verifPoint("client.close.beforeCloseChannels")
 		close(outgoing)
 		close(events)
+		c.channelsLock.Unlock()
 		verifPoint("client.close.afterCloseChannels")
 		c.inFlightHandler.close()
 		c.waitGroup.Wait()
